@@ -471,6 +471,10 @@ var cmCertPool map[string][]cmCertPEM // actor bech32 -> certs
 var cmCertSerials = []string{"0", "1", "255", "256", "65536", "18446744073709551616"}
 
 func cmMakeCert(cn string, serial *big.Int) cmCertPEM {
+	return cmMakeCertValid(cn, serial, time.Now().Add(-time.Hour), time.Now().Add(365*24*time.Hour))
+}
+
+func cmMakeCertValid(cn string, serial *big.Int, notBefore, notAfter time.Time) cmCertPEM {
 	priv, err := ecdsa.GenerateKey(elliptic.P256(), rand.Reader)
 	if err != nil {
 		panic(err)
@@ -479,8 +483,8 @@ func cmMakeCert(cn string, serial *big.Int) cmCertPEM {
 		SerialNumber:          serial,
 		Subject:               pkix.Name{CommonName: cn},
 		Issuer:                pkix.Name{CommonName: cn},
-		NotBefore:             time.Now().Add(-time.Hour),
-		NotAfter:              time.Now().Add(365 * 24 * time.Hour),
+		NotBefore:             notBefore,
+		NotAfter:              notAfter,
 		KeyUsage:              x509.KeyUsageDataEncipherment | x509.KeyUsageKeyEncipherment,
 		ExtKeyUsage:           []x509.ExtKeyUsage{x509.ExtKeyUsageClientAuth},
 		BasicConstraintsValid: true,
@@ -525,6 +529,14 @@ func (m *chainMachine) bCert(t *rapid.T) (cmBuilt, bool) {
 		other := m.actors[(m.pick(t, "other", len(m.actors)-1)+1+indexOfActor(m.actors, a))%len(m.actors)]
 		oc := cmCerts(m.actors)[other.bech][0]
 		return cmBuilt{fmt.Sprintf("CreateCertificate(%s,certOf=%s)", a.name, other.name), &ctypes.MsgCreateCertificate{Owner: a.bech, Cert: oc.cert, Pubkey: oc.pub}, a}, true
+	}
+	if rapid.IntRange(0, 7).Draw(t, "expiringCert") == 0 {
+		// a certificate whose validity ends at the next full second of the wall clock: the chain
+		// has no business looking at the wall clock, so executing the transaction before and
+		// after that instant must give the same result (C07 waits across it between two runs)
+		n, _ := new(big.Int).SetString(c.serial, 10)
+		ec := cmMakeCertValid(a.bech, n, time.Now().Add(-time.Hour), time.Now().Truncate(time.Second).Add(time.Second))
+		return cmBuilt{fmt.Sprintf("CreateCertificate(%s,%s,expires-within-1s)", a.name, c.serial), &ctypes.MsgCreateCertificate{Owner: a.bech, Cert: ec.cert, Pubkey: ec.pub}, a}, true
 	}
 	return cmBuilt{fmt.Sprintf("CreateCertificate(%s,%s)", a.name, c.serial), &ctypes.MsgCreateCertificate{Owner: a.bech, Cert: c.cert, Pubkey: c.pub}, a}, true
 }
@@ -794,7 +806,6 @@ func (m *chainMachine) aMarketRound(t *rapid.T) {
 	}
 }
 
-
 // aWithdrawThenClose: constructive macro for "nothing is owed at that moment" — the
 // provider withdraws (which settles the account in this block) and then, in the same
 // block, the lease is ended by the tenant, the provider, or by closing the deployment.
@@ -848,7 +859,6 @@ func (m *chainMachine) bootstrap(t *rapid.T) {
 		}
 	}
 }
-
 
 // aNearMissBid (C08): take an open order that requires auditors, make a provider exactly
 // eligible and then (usually) break one thing: one all-of auditor missing, one attribute
@@ -913,7 +923,6 @@ func (m *chainMachine) aNearMissBid(t *rapid.T) {
 	m.deliver(fmt.Sprintf("CreateBid(%s,%s,price=%d)[near-miss %d]", m.bidName(mtypes.MakeBidID(o.OrderID, p.addr)), p.name, max, defect),
 		&mtypes.MsgCreateBid{Order: o.OrderID, Provider: p.bech, Price: cmCoin(max), Deposit: cmCoin(m.params.bidMin)}, p)
 }
-
 
 // aExhaustExactly: constructive macro for "the balance hits zero exactly": top the
 // deployment account up to a multiple of its total rate, advance to the block where it
